@@ -4,6 +4,12 @@
 (* real router stacks over virtual links and records                        *)
 (*   {"ev":"topo","n":N,"links":[{"a":..,"b":..,"la":..,"lb":..}],...}      *)
 (*   {"ev":"announce","o":O,"k":K}                                          *)
+(*        (+ "clock_ms":D when the wall clock of honest router O is D ms      *)
+(*        off the clock of the others: its announcement carries the sequence  *)
+(*        time and the expiry of ITS clock.  A clock is configuration of an   *)
+(*        honest router, not an event of the protocol: the judgement - the    *)
+(*        flooding rules, drained, Reach - is the same, so the field is only  *)
+(*        carried for the reader of a rejected trace.)                        *)
 (*   {"ev":"send","o":O,"k":K,"hops":[..],"from":F,"to":T}   every frame     *)
 (*        that crosses a virtual link (hop list decoded from the bytes)      *)
 (*   {"ev":"deliver",...same fields...}                                      *)
